@@ -117,18 +117,23 @@ func runVector(v *Vector, seed int64, wantTrace bool) VecResult {
 	var res VecResult
 	e := newEnv(seed)
 	for _, d := range v.Defs {
-		o, err := e.evalTerm(d.T)
-		if err != nil {
-			res.Infra++
-			res.Failures = append(res.Failures, Failure{Vid: v.ID, Infra: "def " + d.N + ": " + err.Error()})
-			return res
+		e.raw[d.N] = d.T
+	}
+	hardSoFar := func() bool {
+		for _, f := range res.Failures {
+			if f.Infra == "" && !f.Soft {
+				return true
+			}
 		}
-		e.defs[d.N] = o
+		return false
 	}
 	for i, st := range v.Steps {
 		res.Steps++
 		argsAny, err := e.evalTree(st.Args)
 		if err != nil {
+			if hardSoFar() { // a consequence of the failure already recorded for this behaviour, not an infrastructure error
+				return res
+			}
 			res.Infra++
 			res.Failures = append(res.Failures, Failure{Vid: v.ID, Step: i + 1, Act: st.Act, Infra: "args: " + err.Error()})
 			return res
@@ -140,12 +145,18 @@ func runVector(v *Vector, seed int64, wantTrace bool) VecResult {
 		obs := runAct(e, st, args)
 		e.obs = append(e.obs, obs)
 		if msg, bad := obs["infra"]; bad {
+			if hardSoFar() { // a consequence of the failure already recorded for this behaviour, not an infrastructure error
+				return res
+			}
 			res.Infra++
 			res.Failures = append(res.Failures, Failure{Vid: v.ID, Step: i + 1, Act: st.Act, Infra: fmt.Sprint(msg)})
 			return res
 		}
 		expAny, err := e.evalTree(st.Expect)
 		if err != nil {
+			if hardSoFar() { // a consequence of the failure already recorded for this behaviour, not an infrastructure error
+				return res
+			}
 			res.Infra++
 			res.Failures = append(res.Failures, Failure{Vid: v.ID, Step: i + 1, Act: st.Act, Infra: "expect: " + err.Error()})
 			return res
